@@ -46,35 +46,36 @@ def cases(tier, seed):
     # (2) record bags x partitions x orders x buffers x storage modes
     nb = 260 if tier == "quick" else 4000
     for h in range(nb):
-        tname = names[h % len(names)]
+        F_h = gen.feat(101, h)          # independent feature choices per case (gen.feat)
+        tname = names[F_h("len_names@48", len(names))]
         table = T[tname]
         n = len(table)
-        mode = "symm" if h % 3 else "square"
+        mode = "symm" if F_h("m3@51", 3) else "square"
         base = gen.random_store(rng, n, mode, maxval=3)
         rows = [p for p in base for _ in range(rng.choice([1, 1, 2, 3]))]     # repeated pixels
-        if h % 11 == 0:
+        if F_h("m11@54", 11) == 0:
             rows = []
         k = rng.randint(1, 6)
         chunks = chunkings(rows, k, rng)
         rng.shuffle(chunks)
-        ncols = 1 if h % 4 else 2
+        ncols = 1 if F_h("m4@59", 4) else 2
         cols = ["count", "x"][:ncols]
         if ncols == 2:
             chunks = [[[i, j, v, rng.randint(0, 4)] for i, j, v in ch] for ch in chunks]
         case = {"table": table, "mode": mode, "chunks": chunks, "cols": cols, "aggs": ["sum"] * ncols,
                 "buf": rng.choice([1, 2, 3, 7, 10 ** 6]), "max_merge": rng.choice([0, 1, 2, 3, 200]),
-                "form": "frame" if h % 5 else "dict", "group": "/" if h % 6 else "/x/y"}
-        if h % 7 == 2:
+                "form": "frame" if F_h("m5@65", 5) else "dict", "group": "/" if F_h("m6@65", 6) else "/x/y"}
+        if F_h("m7@66", 7) == 2:
             for ch in case["chunks"]:
                 rng.shuffle(ch)                  # chunk not sorted internally: sorting requested
             case["ensure_sorted"] = True
-        if h % 6 == 1:
+        if F_h("m6@70", 6) == 1:
             case["scale"] = 4                    # float64 value columns (multiples of 0.25), also through the two-pass merge
             case["max_merge"] = rng.choice([1, 2, 200])
         if case["form"] == "frame":
-            case["labels"] = ["default", "perm", "offset", "default"][h % 4]
-        case["id_dtype"] = ["int64", "int32", "int16", "uint8", "int8"][h % 5]
-        if h % 9 == 4 and ncols == 1:
+            case["labels"] = ["default", "perm", "offset", "default"][F_h("m4@74", 4)]
+        case["id_dtype"] = ["int64", "int32", "int16", "uint8", "int8"][F_h("m5@75", 5)]
+        if F_h("m9@76", 9) == 4 and ncols == 1:
             # duplicate checking switched off: a pixel may repeat INSIDE a chunk; the result must still be the aggregate
             # (a chunk never holds more rows than the matrix has pixels: the per-chunk temporary collection is sized for that)
             case["dupcheck"] = False
